@@ -124,15 +124,3 @@ Definition gospec_case (s : list N) : option (list N) :=
   | Some f => match go_run (fsize f) f with Some r => Some (enc_result r) | None => None end
   | None => None
   end.
-
-(* gospec_case followed by the two finding-trigger flags of the run *)
-Definition gospec_flags_case (s : list N) : option (list N) :=
-  match parse_tree s with
-  | Some f =>
-      match go_run (fsize f) f with
-      | Some r => let fl := go_flags (fsize f) f in
-                  Some (enc_result r ++ [if fst fl then 1 else 0; if snd fl then 1 else 0])
-      | None => None
-      end
-  | None => None
-  end.
